@@ -15,7 +15,7 @@ namespace Driver
 structure KSt where
   store : List String := []
   writes : List Entry := []
-  rets : Std.HashMap String (List String × List String) := {}
+  rets : Std.HashMap String (List String × List String × Bool) := {}
   lineNo : Nat := 0
   hist : String := ""
   diffs : Nat := 0
@@ -58,12 +58,19 @@ def handleCrash (s : KSt) (line : String) : KSt :=
       (e.next ++ e.refs).contains (strBytes a))
     let s := s.spec "removalKeepsClosure" (!refd) s!"removed {a}"
     { s with store := s.store.filter (· != a) }
-  | ["R", _, a, _, state, heads] =>
-    { s with rets := s.rets.insert a (parseList state, parseList heads) }
+  | ["R", _, a, _, state, heads, pf] =>
+    { s with rets := s.rets.insert a (parseList state, parseList heads, pf == "1") }
   | ["L", kind, a, upto, res, ents, heads] =>
     match s.rets[a]? with
     | none => s
-    | some (st, hd) =>
+    | some (st, hd, part) =>
+      if part then
+        -- published by a log truncated by a size-bounded merge: the unbounded load gives at least its state
+        -- (a truncated log may hold entries that are not below its heads, so only the heads are demanded)
+        let got := parseList ents
+        if kind != "mh" then s else
+        s.spec "returnedLoadsHeads" (res == "ok" && hd.all (fun x => got.contains x)) s!"{kind} {a} at {upto}: {res} {ents} expected ⊇ heads {",".intercalate hd}"
+      else
       let s := s.spec "returnedLoads" (res == "ok" && parseList ents == st) s!"{kind} {a} at {upto}: {res} {ents} expected {",".intercalate st}"
       if kind == "mh" then s.spec "returnedHeads" (res != "ok" || parseList heads == hd) s!"{kind} {a} at {upto}" else s
   | _ => s
